@@ -2195,6 +2195,84 @@ func checkTimeoutAndLibraryState(c *Ctx, p *core.Prog) {
 		}
 	}
 	c.R.Count("R19.18:selects on ctx.Done", nSel)
+	// R19.22: the exit status says whether a license was reported, so the tool never leaves by the normal way before it has
+	// looked at the results: in the function that calls GetResults, every return that is not the return of an error stands
+	// behind that call. An early `return` for "nothing to scan" ends the process with status 0 although nothing was reported.
+	{
+		for _, fn := range fns {
+			var gr ssa.Instruction
+			for _, call := range core.CallsIn(fn) {
+				if g := call.Common().StaticCallee(); g != nil && g.Name() == "GetResults" {
+					gr = call.(ssa.Instruction)
+				}
+			}
+			if gr == nil {
+				continue
+			}
+			bad := ""
+			nRet := 0
+			for _, b := range fn.Blocks {
+				ret, ok := b.Instrs[len(b.Instrs)-1].(*ssa.Return)
+				if !ok || b == fn.Recover {
+					continue
+				}
+				nRet++
+				if gr.Block() == b || gr.Block().Dominates(b) {
+					continue
+				}
+				// the return of an error (run() error style): the caller turns it into a fatal exit
+				isErr := false
+				for _, r := range ret.Results {
+					if r.Type().String() == "error" {
+						if k, isK := r.(*ssa.Const); !isK || !k.IsNil() {
+							isErr = true
+						}
+					}
+				}
+				if !isErr && bad == "" {
+					bad = p.Pos(ret.Pos())
+				}
+			}
+			c.R.Check(bad == "", "R19.22", core.ShortFn(fn)+": no normal return in front of the look at the results", p.Pos(fn.Pos()), fmt.Sprintf("%d returns, each behind GetResults or the return of an error", nRet),
+				"the function returns normally at "+bad+" before the results were looked at: the process ends with status 0 although no license was reported (an empty directory, every file excluded)")
+		}
+	}
+	// R19.20: the JSON output has one entry per file: the entry a classification is added to is found by the file's name (a
+	// map look-up keyed by Filename), not by comparing the name with that of the previous result - the results are sorted by
+	// confidence first, so the results of one file are not adjacent.
+	if nj := p.Func(resultsPkg, "NewJSONResult"); nj != nil {
+		byName := false
+		for _, f := range pkgClosure(nj, resultsPkg) {
+			for _, b := range f.Blocks {
+				for _, in := range b.Instrs {
+					if lk, ok := in.(*ssa.Lookup); ok {
+						if _, isMap := lk.X.Type().Underlying().(*types.Map); isMap && strings.HasSuffix(core.AP(lk.Index), ".Filename") {
+							byName = true
+						}
+					}
+				}
+			}
+		}
+		c.R.Check(byName, "R19.20", "NewJSONResult finds the entry of a file by its name", p.Pos(nj.Pos()), "a map look-up keyed by the result's Filename",
+			"no map look-up keyed by Filename: the entry of a file is not found by name (consecutive results are grouped instead) - with results of several files interleaved by confidence a file gets several entries, each with part of its classifications")
+	}
+	// R19.21: every path the tool is given is classified: the tool's walk does not leave entries out by their mode bits (a
+	// symbolic link to a license file is not a regular file for Lstat, which filepath.Walk uses).
+	{
+		bad := ""
+		for _, fn := range fns {
+			for _, call := range core.CallsIn(fn) {
+				switch core.StaticCalleeName(call.Common()) {
+				case "(io/fs.FileMode).IsRegular", "(os.FileMode).IsRegular", "(io/fs.FileMode).Type", "(io/fs.FileMode).Perm":
+					if bad == "" {
+						bad = core.ShortFn(fn) + " at " + p.Pos(call.Pos())
+					}
+				}
+			}
+		}
+		c.R.Check(bad == "", "R19.21", "the tool does not select the files to classify by their mode bits", cliPkg, "no test of FileMode.IsRegular/Type/Perm in the tool",
+			"files are selected by their mode bits ("+bad+"): a symbolic link to a license file is silently left out, so the tool reports less than Match returns for the files it was given")
+	}
 	// R19.19: the tool reports what the library finds with the library as it is: no function of the tool writes a
 	// package-level variable of a library package (the corpus loader's, the classifier's). A category left out of the corpus
 	// changes which candidates compete in Match's overlap filter, so the tool prints matches Match does not return.
